@@ -202,6 +202,55 @@ def r3(ck, rule="C16-R3"):
                    "on the path where the old name is in the map, choose_filename_to_patch reads %s of the record: e.g. an existing but empty "
                    "file would be taken for absent and the patch would go to the new name, while a later invocation (which finds the file on "
                    "disk) picks the old name" % used, ch.where(), ok_detail="reads only .deleted")
+    # what the two functions may base a decision on (anything else - a remembered set of "missing" names or directories, a counter, a flag
+    # - answers from a summary that can be stale, or differently in a later invocation)
+    def decisions(fn):
+        out = []
+        for bb, t in fn.terms():
+            if t["k"] != "switch" or fn.blocks[bb]["cleanup"]:
+                continue
+            if t["dty"] == "bool":
+                op = t["discr"]
+                if op.get("k") in ("copy", "move") and "p" not in op["pl"] and not fn.local_name(op["pl"]["l"]):
+                    ds = df.defs_of(fn).all(op["pl"]["l"])
+                    if ds and all(dd[0] == "stmt" and dd[3]["rv"]["k"] == "use" and dd[3]["rv"]["op"].get("k") == "const" for dd in ds):
+                        continue        # a drop flag
+                e, neg = guards.switch_cond(fn, bb)
+                out.append((bb, "bool", e))
+            else:
+                sw = [x for x in pt.discr_switches(fn, lambda e_, rv: True) if x["bb"] == bb]
+                out.append((bb, "discr", sw[0]["expr"] if sw else df.operand_expr(fn, t["discr"])))
+        return out
+
+    def allowed_choose(kind, e):
+        if kind == "discr":
+            return (isinstance(e, tuple) and e[0] == "param") or df.is_call(e, "HashMap::<K, V, S, A>::get") or \
+                (isinstance(e, tuple) and e[0] == "agg" and e[1] == "tuple")
+        return df.is_call(e, "::eq") or df.is_call(e, "::ne") or (isinstance(e, tuple) and e[0] == "field" and e[2] == "deleted") or \
+            df.is_call(e, "std::path::Path::exists") or df.is_call(e, "std::path::Path::try_exists")
+
+    def allowed_load(kind, e):
+        if kind == "discr":
+            return df.is_call(e, "HashMap::<K, V, S, A>::entry") or df.is_call(e, "Arena::load_file") or df.is_call(e, "Try>::branch") or \
+                df.is_call(e, "Try::branch")
+        return (df.is_call(e, "::eq") or df.is_call(e, "::ne")) and df.mentions(e, lambda x: df.is_call(x, "io::error::Error::kind")) and \
+            df.mentions(e, lambda x: df.is_call(x, "Arena::load_file"))
+    for fn_, allowed, what in ((ch, allowed_choose, "which of the two names a file patch applies to depends only on the names, the in-memory record "
+                                "(present? deleted?) and - for names not in memory - the disk"),
+                               (gol, allowed_load, "whether a file is taken from memory, loaded or taken for absent depends only on the map entry and "
+                                "the answer of the load")):
+        other = [(bb, df.show(e, 90)) for bb, kind, e in decisions(fn_) if not allowed(kind, e)]
+        ck.require(not other, rule, what,
+                   "%s also branches on %s: an answer remembered from an earlier lookup (or any other summary) can be stale within the run and "
+                   "is not what a later invocation would find" % (fn_.id.split("::")[-1], [x[1] for x in other]),
+                   fn_.where(fn_.blocks[other[0][0]]["term"]) if other else fn_.where(), ok_detail="%d decisions, all on the map / the record / the disk" % len(decisions(fn_)))
+    # an absent file is only ever recorded on the NotFound answer of the load
+    for bb, t in gol.calls():
+        if (callee_of(t).get("rpath") or "").endswith("ModifiedFile::<'a>::new_non_existent") and not gol.blocks[bb]["cleanup"]:
+            nf = [g["true_edge"] for g in guards.find_bool_guards(gol, lambda x: df.is_call(x, "::eq") and df.mentions(x, lambda y: df.is_call(y, "io::error::Error::kind")))]
+            ck.require(any(bb in cfg.dominated_by_edge(gol, e_) for e_ in nf), rule, "a file is recorded as absent only when loading it answered NotFound",
+                       "get_or_load builds ModifiedFile::new_non_existent() on a path that did not try to load the file: a file that exists would be "
+                       "recorded with existed = false and later be rewritten in place", gol.where(t))
     lf = [(bb, t) for bb, t in gol.calls() if (callee_of(t).get("path") or "").endswith("Arena::load_file")]
     ck.floor(rule, "load_file calls in get_or_load", len(lf), 1)
     sws = pt.discr_switches(gol, lambda e, rv: (rv.get("adt") or "").endswith("hash::map::Entry"))
